@@ -71,9 +71,7 @@ fn classify(e: &Node, form: Form, assoc_explains: bool) -> Vec<String> {
         }
     }
     if let Some(g) = glue_class(e, form == Form::Rc) { return vec![format!("lexer_glue:{g}")]; }
-    if contains(e, &|n| matches!(n, Node::ErrorKind(ironcalc_base::expressions::token::Error::NIMPL)) || array_has_error(n, true)) {
-        return vec!["error_nimpl_spelling".to_string()];
-    }
+    // (F01 `error_nimpl_spelling` is repaired by commit 4a681a0: `#N/IMPL!` is an ordinary error literal now)
     if form.lang_name() != "en" && contains(e, &|n| matches!(n, Node::ErrorKind(_)) || array_has_error(n, false)) {
         return vec!["error_not_localized".to_string()];
     }
